@@ -480,8 +480,23 @@ class KDECase(Case):
         c.train_ids = list(range(ntrain))
         c.params = {"bandwidth": tape.choice("kde.bw", [0.5, 2.0]), "n_components": tape.choice("kde.n", [5, 16]),
                     "evaluation_grid_strategy": tape.choice("kde.grid", ["uniform", "density"])}
-        c.desc.update(params=dict(c.params), pool=len(c.pool), ntrain=ntrain)
+        # how the caller holds the samples: a list of arrays | one 2-D array, a sample per row (the rows an iteration
+        # hands out are temporaries) | a tuple of arrays
+        c.container = tape.draw("kde.container", 3)
+        if c.container == 1:
+            n = min(len(x) for x in c.pool)
+            c.pool = [x[:n] for x in c.pool]
+        c.desc.update(params=dict(c.params), pool=len(c.pool), ntrain=ntrain, container=c.container)
         return c
+
+    def build(self, ids, for_fit=False, invalid_at=None, invalid_kind=None):
+        X, kw = super().build(ids, for_fit=for_fit, invalid_at=invalid_at, invalid_kind=invalid_kind)
+        if invalid_at is None and X:
+            if self.container == 1:
+                X = np.asarray(X, dtype=np.float64)
+            elif self.container == 2:
+                X = tuple(X)
+        return X, kw
 
 
 class DistributionCase(Case):
@@ -669,8 +684,20 @@ class SlidingWindowCase(Case):
             c.kernel = tape.choice("sw.kernel", [None, "average", "differences"])
             minlen = width + 2
         c.pool = [draw_numseq(tape, "sw.seq", minlen, 14) for _ in range(tape.between("sw.pool", 4, 9))]
+        # sometimes the sequences do not all have one dtype (int64 / float32 / float64 with values that float32 cannot
+        # hold): what an item's windows are must not depend on which item happens to come first in the batch
+        c.mixed = tape.chance("sw.mixed", 1, 2)
+        if c.mixed:
+            for j in range(len(c.pool)):
+                kind = tape.draw("sw.dtype", 3)
+                if kind == 1:
+                    c.pool[j] = np.floor(c.pool[j]).astype(np.int64)
+                elif kind == 2:
+                    c.pool[j] = (c.pool[j] / 3.0).astype(np.float32)
+                else:
+                    c.pool[j] = c.pool[j] / 3.0
         c.train_ids = list(range(tape.between("sw.ntrain", 1, len(c.pool) - 1)))
-        c.desc.update(params=dict(c.params), kernel=getattr(c, "kernel", None), pool=len(c.pool))
+        c.desc.update(params=dict(c.params), kernel=getattr(c, "kernel", None), pool=len(c.pool), mixed_dtypes=c.mixed)
         return c
 
     def param_objects(self):
@@ -1085,7 +1112,12 @@ class EdgeListCase(Case):
             c.user_cols = None
             if c.user_rows is not None:
                 c.user_rows = {f"n{i}": i for i in range(max(nr, nc) + 1)}
-        c.desc.update(user_rows=c.user_rows is not None, user_cols=c.user_cols is not None, n_edges=len(c.edges), params=dict(c.params))
+        # how the caller holds the edge list: list of tuples | (n,3) object ndarray | (3,n) object ndarray | tuple of
+        # columns; and the Python / numpy type of every weight (the same number whatever the type)
+        c.container = tape.draw("el.container", 4)
+        c.wtypes = [tape.draw("el.wtype", 3) for _ in c.edges]
+        c.desc.update(user_rows=c.user_rows is not None, user_cols=c.user_cols is not None, n_edges=len(c.edges), params=dict(c.params),
+                      container=c.container)
         return c
 
     def param_objects(self):
@@ -1097,7 +1129,20 @@ class EdgeListCase(Case):
         return d
 
     def build(self, ids, for_fit=False):
-        return [tuple(self.edges[i]) for i in ids], {}
+        def w(i):
+            v = self.edges[i][2]
+            return (v, int(v), np.int64(v))[self.wtypes[i]]
+        rows = [(self.edges[i][0], self.edges[i][1], w(i)) for i in ids]
+        if self.container == 1 or self.container == 2:
+            a = np.empty((len(rows), 3), dtype=object)
+            for j, r in enumerate(rows):
+                a[j, 0], a[j, 1], a[j, 2] = r
+            if self.container == 2 and len(rows) != 3:
+                a = np.ascontiguousarray(a.T)
+            return a, {}
+        if self.container == 3 and len(rows) != 3:
+            return tuple([r[k] for r in rows] for k in range(3)), {}
+        return rows, {}
 
     def rows(self, out, n):
         return [out]
